@@ -5,10 +5,20 @@ Tie (K): every input below is run through geostructures' `_geometry.convex_hull`
 public entry points (MultiGeoPoint / MultiGeoLineString / MultiGeoPolygon .convex_hull(),
 FeatureCollection / Track .convex_hull); inputs and the implementation's vertex lists are written
 as Gallina literals and compared with the model `HullM.hull` / `HullM.hull_of_members` by
-vm_compute.  All coordinates are small integers, so every float cross product of the
-implementation is exact and the float code takes the branches of the exact model (DESIGN s.3).
-In addition the property itself is evaluated on the implementation's answers with exact integer
-arithmetic (`oracle`), so that a disagreement becomes a concrete failing input.
+vm_compute.
+
+Coordinates and scales.  A configuration is a list of small integer pairs k.  The library is fed
+the coordinates `base + k * 2**-s` (a "frame": s in {0,1,2,5,10,16,20,24,30,40,100}, integer or
+dyadic bases), i.e. the same configuration from a 170-degree spread down to far below a millimetre.  The model
+over Z is invariant under translation and uniform scaling (only signs of cross products of
+differences matter), so it is evaluated on the integers k.  That is only legitimate when the
+float computation is exact: per case `frame_exact` checks with fractions.Fraction that every
+coordinate is representable and stored unchanged by Coordinate, that all differences/products
+stay below 2**53 units of 2**-2s, and that sampled float cross products equal the exact ones;
+only then is equality with the model demanded (otherwise the case is skipped and counted).
+In addition the property itself is evaluated on the implementation's answers with exact
+arithmetic (`oracle`, on the actual coordinate values as Fractions), so that a disagreement
+becomes a concrete failing input.
 """
 import itertools
 import json
@@ -16,6 +26,7 @@ import logging
 import os
 import sys
 from datetime import datetime, timedelta
+from fractions import Fraction
 
 sys.path.insert(0, os.path.dirname(os.path.abspath(__file__)))
 from lib import Check, REPO, COQ, sh, guarded, reslit, zlit, listlit   # noqa: E402
@@ -31,27 +42,67 @@ T0 = datetime(2020, 1, 1)
 _CC = {}
 
 
-SCALE = 1      # the grid step is 1/SCALE degrees (1, 2 or 4: dyadic, so float arithmetic stays exact);
-               # the Gallina literals and the oracle always see the integers p, the library sees p/SCALE
+class Inexact(Exception):
+    pass
+
+
+# (base_lon, base_lat, s): the library sees base + k * 2**-s, the model and the literals see k
+FRAME = (Fraction(0), Fraction(0), 0)
+IDENT = (Fraction(0), Fraction(0), 0)
+
+
+def set_frame(fr):
+    global FRAME
+    FRAME = (Fraction(fr[0]), Fraction(fr[1]), int(fr[2]))
+
+
+def val(p):
+    """the exact coordinate value of grid point p in the current frame"""
+    bx, by, s = FRAME
+    return (bx + Fraction(p[0], 1 << s), by + Fraction(p[1], 1 << s))
 
 
 def C(p):
-    c = _CC.get((p, SCALE))
+    key = (p, FRAME)
+    c = _CC.get(key)
     if c is None:
-        c = _CC[(p, SCALE)] = Coordinate(p[0] / SCALE, p[1] / SCALE)
+        x, y = val(p)
+        xf, yf = float(x), float(y)
+        if Fraction(xf) != x or Fraction(yf) != y:
+            raise Inexact('coordinate not representable')
+        c = Coordinate(xf, yf)
+        if Fraction(c.longitude) != x or Fraction(c.latitude) != y:
+            raise Inexact('Coordinate() changed the value')
+        _CC[key] = c
     return c
 
 
 def of_coord(c):
-    lon, lat = c.longitude * SCALE, c.latitude * SCALE
-    if float(lon) != int(lon) or float(lat) != int(lat) or c.z is not None:
-        raise ValueError('non-grid output')
-    return (int(lon), int(lat))
+    bx, by, s = FRAME
+    kx, ky = (Fraction(c.longitude) - bx) * (1 << s), (Fraction(c.latitude) - by) * (1 << s)
+    if kx.denominator != 1 or ky.denominator != 1 or c.z is not None:
+        raise ValueError('output coordinate is not a point of the input grid')
+    return (int(kx), int(ky))
 
 
-def set_scale(k):
-    global SCALE
-    SCALE = k
+def frame_exact(pts, rng):
+    """exactness of the float computation on this configuration in the current frame"""
+    try:
+        cs = [C(p) for p in pts]
+    except Inexact:
+        return False
+    dx = max(p[0] for p in pts) - min(p[0] for p in pts)
+    dy = max(p[1] for p in pts) - min(p[1] for p in pts)
+    if 2 * max(dx, 1) * max(dy, 1) >= 1 << 53:
+        return False
+    for _ in range(min(12, len(pts))):          # sampled float cross products against exact ones
+        o, a, b = (rng.randrange(len(pts)) for _ in range(3))
+        fo, fa, fb = cs[o], cs[a], cs[b]
+        fl = ((fa.longitude - fo.longitude) * (fb.latitude - fo.latitude) -
+              (fa.latitude - fo.latitude) * (fb.longitude - fo.longitude))
+        if Fraction(fl) != cross(val(pts[o]), val(pts[a]), val(pts[b])):
+            return False
+    return True
 
 
 def ptlit(p):
@@ -324,7 +375,30 @@ def gen_vertical(rng):
     return [(rng.choice(xs), rng.randint(-6, 6)) for _ in range(n)], 'vertical-ties'
 
 
-GENS = [gen_random, gen_random, gen_collinear, gen_on_edges, gen_grid, gen_vertical]
+def gen_sliver(rng):
+    """near-degenerate: points within one grid step of a long segment (all turns are tiny)"""
+    dx, dy = rng.choice([(1, 0), (0, 1), (7, 1), (1, 9), (5, -3), (12, 5), (-3, 11), (20, 1), (1, -20)])
+    n = rng.randint(3, 30)
+    K = min(rng.choice([2, 4, 7]), 75 // max(abs(dx), abs(dy)))     # stay within +-85 grid units
+    ox, oy = rng.randint(-5, 5), rng.randint(-5, 5)
+    pts = []
+    for _ in range(n):
+        t = rng.randint(-K, K)
+        ex, ey = rng.choice([(0, 0), (0, 0), (0, 1), (1, 0), (0, -1), (-1, 0), (1, 1), (-1, 1)])
+        pts.append((ox + t * dx + ex, oy + t * dy + ey))
+    return pts, 'sliver'
+
+
+GENS = [gen_random, gen_sliver, gen_collinear, gen_on_edges, gen_grid, gen_vertical, gen_random]
+FR = Fraction
+FRAMES = [   # (base_lon, base_lat, s)
+    (0, 0, 0), (1, -3, 0), (FR(1, 2), FR(1, 4), 0), (0, 0, 1), (0, 0, 2),
+    (FR(75, 2), FR(49, 4), 5), (0, 0, 5), (FR(-569, 8), FR(91, 2), 10), (3, -60, 10),
+    (FR(201, 2), FR(-133, 4), 16), (0, 0, 16), (FR(-1921, 16), FR(121, 2), 20), (1, 1, 20),
+    (FR(75, 2), FR(49, 4), 24), (0, 0, 24), (FR(-1, 2), 89, 24), (-179, 0, 24),
+    (0, 0, 30), (FR(75, 2), FR(49, 4), 30), (1, -3, 40), (0, 0, 40), (0, 0, 100),
+]
+MULTI_S = [0, 5, 10, 16, 20, 24, 30, 40, 100]
 ENTRY_KINDS = ['mpoint', 'mline', 'mpoly', 'fc', 'track']
 FIXED = [
     [(0, 0)], [(0, 0), (0, 0)], [(0, 0), (1, 1)], [(1, 1), (0, 0), (1, 1)], [(0, 0), (0, 1)], [(0, 1), (0, 0)],
@@ -351,6 +425,17 @@ def nontrivial(pts):
                                    if p not in (h[i], h[(i + 1) % len(h)]))
 
 
+def frame_json(fr):
+    return [str(Fraction(fr[0])), str(Fraction(fr[1])), int(fr[2])]
+
+
+def oracle_here(pts, h):
+    """the property on the implementation's answer, on the actual coordinate values (exact Fractions)"""
+    if FRAME == IDENT:
+        return oracle(pts, h)
+    return oracle([val(p) for p in pts], [val(v) for v in h])
+
+
 def main():
     ck = Check('C10')
     ck.build_theories(['theories/Props/C10.vo', 'theories/Corr/HullK.vo'])
@@ -372,30 +457,39 @@ def main():
 
     cases, meta = [], []
     seen_nontrivial = set()
+    skipped = [0]
 
-    def add_direct(pts, cls, scale=1):
-        set_scale(scale)
+    def add_direct(pts, cls, frame=IDENT):
+        """returns the implementation's answer in grid units, or None when the frame is not exact"""
+        set_frame(frame)
+        if frame != IDENT and not frame_exact(pts, rng):
+            skipped[0] += 1
+            return None
         r = guarded(lambda: impl_hull(pts))
-        m = {'k': 'hull', 'class': cls, 'pts': pts, 'out': r, 'scale': scale}
+        m = {'k': 'hull', 'class': cls, 'pts': pts, 'out': r, 'frame': frame_json(frame)}
         if r[0] == 'Ok':
             cases.append(f'KHull {ptslit(pts)} {ptslit(r[1])}')
-            m['clauses'] = oracle(pts, r[1])
+            m['clauses'] = oracle_here(pts, r[1])
         else:      # the function never raises on grid input: an exception is a mismatch by itself
             cases.append(f'KHull {ptslit(pts)} [(12345, 12345)]')
             m['clauses'] = [('raises', f'convex_hull raised {r[1]}')]
         meta.append(m)
         ck.count('direct:' + cls)
+        ck.count('scale:2^-%d' % frame[2])
         if nontrivial(pts):
-            seen_nontrivial.add(tuple(pts))
+            seen_nontrivial.add((tuple(pts), frame[2]))
         return r
 
-    def add_entry(kind, pts, cls, scale=1):
-        set_scale(scale)
+    def add_entry(kind, pts, cls, frame=IDENT):
+        set_frame(frame)
+        if frame != IDENT and pts and not frame_exact(pts, rng):
+            skipped[0] += 1
+            return
         r, ms = impl_entry(kind, pts, rng)
-        m = {'k': 'entry', 'entry': kind, 'class': cls, 'pts': pts, 'members': ms, 'out': r, 'scale': scale}
+        m = {'k': 'entry', 'entry': kind, 'class': cls, 'pts': pts, 'members': ms, 'out': r, 'frame': frame_json(frame)}
         cases.append(f'KEntry {listlit([ptslit(x) for x in ms])} {reslit(r, ptslit)}')
         flat = [p for x in ms for p in x]
-        m['clauses'] = oracle(flat, r[1]) if r[0] == 'Ok' else \
+        m['clauses'] = oracle_here(flat, r[1]) if r[0] == 'Ok' else \
             ([] if not flat and r[1] == 'IndexError' else [('raises', f'{kind} convex hull raised {r[1]}')])
         meta.append(m)
         ck.count('entry:' + kind)
@@ -408,18 +502,21 @@ def main():
     for kind in ('mpoint', 'mline', 'mpoly', 'fc'):     # no members at all: GeoPolygon([]) raises IndexError
         add_entry(kind, [], 'empty')
 
-    # -- seeded structured generators
+    # -- seeded structured generators, each configuration in one frame of the cycle
     n_gen = 6000 if thorough else 1100
     kinds = itertools.cycle(ENTRY_KINDS)
     perm_checks = 0
     perm_bad = []
+    scale_bad = []
     for it in range(n_gen):
         pts, cls = GENS[it % len(GENS)](rng)
-        scale = (1, 1, 1, 2, 4)[(it // len(GENS)) % 5]     # some runs on the half / quarter degree grid
-        r = add_direct(pts, cls, scale)
+        frame = FRAMES[(it // len(GENS)) % len(FRAMES)]
+        r = add_direct(pts, cls, frame)
+        if r is None:
+            continue
         if it % 2 == 0:
-            add_entry(next(kinds), pts, cls, scale)
-        set_scale(scale)
+            add_entry(next(kinds), pts, cls, frame)
+        set_frame(frame)
         # order / multiplicity: a shuffled copy with some points repeated must give the same list
         q = pts[:]
         rng.shuffle(q)
@@ -427,12 +524,45 @@ def main():
         r2 = guarded(lambda: impl_hull(q))
         perm_checks += 1
         if r2 != r:
-            perm_bad.append({'pts': pts, 'permuted': q, 'out': r, 'out_permuted': r2, 'scale': scale})
+            perm_bad.append({'pts': pts, 'permuted': q, 'out': r, 'out_permuted': r2, 'frame': frame_json(frame)})
+
+    # -- multi-scale stream: THE SAME configuration at every scale 2^0 .. 2^-100 and 1-3 bases; every
+    #    run is compared with the model (on the integers), and the answers must agree across scales
+    #    (2^-24 degree is about 7 mm; the smaller steps only guard against absolute tolerances)
+    multi = list(FIXED)
+    n_multi = 900 if thorough else 150
+    mgens = [gen_collinear, gen_on_edges, gen_sliver, gen_random, gen_vertical, gen_sliver]
+    for it in range(n_multi):
+        pts, _ = mgens[it % len(mgens)](rng)
+        multi.append([(max(-40, min(40, x)), max(-40, min(40, y))) for x, y in pts])
+    multi_runs = 0
+    for ci, pts in enumerate(multi):
+        answers = []
+        for s_ in MULTI_S:
+            if s_ == 0:
+                bases = [(0, 0), (1, -3)] + ([(FR(1, 2), FR(1, 4))] if ci % 3 == 0 else [])
+            elif s_ <= 24:
+                bases = [(0, 0), (FR(75, 2), FR(49, 4))] + ([(FR(-1921, 16), FR(121, 2))] if ci % 3 == 0 else [])
+            elif s_ <= 40:      # a non-zero base must leave room for s + 7 bits below it
+                bases = [(0, 0), (1, -3)]
+            else:
+                bases = [(0, 0)]
+            for b in bases:
+                fr = (FR(b[0]), FR(b[1]), s_)
+                r = add_direct(pts, 'multi-scale', fr)
+                if r is not None:
+                    multi_runs += 1
+                    answers.append((frame_json(fr), r))
+        for fj, r in answers[1:]:
+            if r != answers[0][1]:
+                scale_bad.append({'pts': pts, 'frame': fj, 'out': r, 'frame0': answers[0][0], 'out0': answers[0][1]})
+                break
+    ck.cov['multi_scale_runs'] = multi_runs
+    ck.cov['skipped_inexact'] = skipped[0]
 
     # -- all permutations of small sets: one canonical order is compared with the model in Coq; the
     #    other orders are compared with that answer here (the model is permutation invariant by
     #    theorem C10_hull_perm, so equality with the canonical answer is equality with the model)
-    set_scale(1)
     grid = [(x, y) for x in range(4) for y in range(4)]
     subsets = []
     if thorough:
@@ -442,15 +572,17 @@ def main():
         for k in range(1, 4):
             subsets += [list(c) for c in itertools.combinations(grid, k)]
         subsets += [rng.sample(grid, k) for k in (4, 5, 6) for _ in range(150)]
-    for S in subsets:
+    for si, S in enumerate(subsets):
         S = sorted(S)
-        r = add_direct(S, 'grid4x4-subset')
+        frame = (IDENT, (FR(75, 2), FR(49, 4), 24), (FR(0), FR(0), 16))[si % 3]    # degrees / centimetres / metres
+        r = add_direct(S, 'grid4x4-subset', frame)
+        set_frame(frame)
         for q in itertools.permutations(S):
             q = list(q)
             r2 = guarded(lambda: impl_hull(q))
             perm_checks += 1
             if r2 != r:
-                perm_bad.append({'pts': S, 'permuted': q, 'out': r, 'out_permuted': r2})
+                perm_bad.append({'pts': S, 'permuted': q, 'out': r, 'out_permuted': r2, 'frame': frame_json(frame)})
                 break
     ck.cov['permutation_checks'] = perm_checks
 
@@ -469,38 +601,52 @@ def main():
         if not (i in bad or m['clauses']) or reported >= 5:
             break
         flat = m['pts'] if m['k'] == 'hull' else [p for x in m['members'] for p in x]
-        set_scale(m.get('scale', 1))
+        set_frame(m['frame'])
         small = shrink(flat, impl_fails) if flat and impl_fails(flat) else None
         rep = {'kind': 'property-fails-on-implementation' if m['clauses'] else 'model-vs-implementation',
                'case': m, 'gallina_case': cases[i], 'property_clauses_violated': m['clauses'],
                'model_differs_in_coq': i in bad,
+               'coordinates_fed_to_the_library': [[float(v) for v in val(tuple(p))] for p in flat][:40],
                'theorems': 'C10_* (Props/C10.v): the model value at this input is the one the theorems pin to the hull',
                'how_to_replay': 'bin/check C10 --replay <this file>'}
         if small is not None:
             rs = guarded(lambda: impl_hull(small))
-            rep['shrunk'] = {'pts': small, 'scale': SCALE, 'implementation': rs, 'reference': ref_hull(small),
-                             'clauses': oracle(small, rs[1]) if rs[0] == 'Ok' else [('raises', rs[1])]}
+            rep['shrunk'] = {'pts': small, 'frame': frame_json(FRAME), 'implementation': rs, 'reference': ref_hull(small),
+                             'coordinates_fed_to_the_library': [[float(v) for v in val(p)] for p in small],
+                             'clauses': oracle_here(small, rs[1]) if rs[0] == 'Ok' else [('raises', rs[1])]}
         ck.violation(rep)
         reported += 1
-    set_scale(1)
     for pb in perm_bad[:max(0, 5 - reported)]:
-        set_scale(pb.get('scale', 1))
+        set_frame(pb['frame'])
         small = shrink(pb['pts'], lambda q: impl_fails(q) or impl_fails(q[::-1]) or
                        guarded(lambda: impl_hull(q)) != guarded(lambda: impl_hull(q[::-1])))
         ck.violation({'kind': 'property-fails-on-implementation',
                       'property_clauses_violated': [('permutation', 'the hull depends on the order or multiplicity of the input')],
-                      'case': {'k': 'perm', **pb}, 'shrunk': {'pts': small, 'scale': SCALE},
+                      'case': {'k': 'perm', **pb}, 'shrunk': {'pts': small, 'frame': frame_json(FRAME)},
                       'theorems': 'C10_hull_perm / C10_hull_same_set', 'how_to_replay': 'bin/check C10 --replay <this file>'})
+        reported += 1
+    for sb in scale_bad[:max(0, 5 - reported)]:
+        ck.violation({'kind': 'property-fails-on-implementation',
+                      'property_clauses_violated': [('scale', 'the same configuration gives different hulls at different scales / offsets '
+                                                              '(exact inputs: the hull commutes with translation and uniform scaling)')],
+                      'case': {'k': 'hull', **sb}, 'theorems': 'C10_* (the model is evaluated on the integer configuration)',
+                      'how_to_replay': 'bin/check C10 --replay <this file>'})
 
-    ck.finish(rule='fixed corpus x every entry point; seeded generators (random integer grids of radius 1..80 with repeats - two runs in five on the half / quarter degree grid, scaled to integers for the model -, '
-                   'all-collinear runs incl. vertical/horizontal, convex polygons with lattice points on their edges and interior, '
-                   'axis-aligned grids, few-distinct-longitude sets), 1..40 points, each also through one of MultiGeoPoint/'
-                   'MultiGeoLineString/MultiGeoPolygon/FeatureCollection/Track and re-run shuffled with repeats; subsets of the 4x4 grid '
-                   '(thorough: all 14892 subsets of <= 6 points; quick: all of <= 3 points and 450 random ones of 4..6), each in ALL its '
-                   'orders, every order compared with the canonical one (which Coq compares with the model); non-trivial = at least 3 distinct points and (a repeated input point, '
-                   'or two points sharing a longitude, or an input point on a hull edge); distinct input tuples counted',
-              assumptions=['coordinates are (lon, lat) on the integer, half or quarter degree grid with |lon| <= 90, no Z value: float cross products are exact, '
-                           'Coordinate does not wrap, ensure_edge_bounds is the identity',
+    ck.finish(rule='configurations of 1..40 small integer pairs: fixed corpus x every entry point; seeded generators (random grids of radius 1..80 '
+                   'with repeats, all-collinear runs incl. vertical/horizontal, convex polygons with lattice points on their edges and interior, '
+                   'thin slivers within one grid step of a long segment, axis-aligned grids, few-distinct-longitude sets), each fed to the library '
+                   'as base + k*2^-s in one of 22 frames (s in 0,1,2,5,10,16,20,24,30,40,100; integer and dyadic bases), also through one of MultiGeoPoint/'
+                   'MultiGeoLineString/MultiGeoPolygon/FeatureCollection/Track and re-run shuffled with repeats; a multi-scale stream running THE '
+                   'SAME configuration at every s in 0,5,10,16,20,24,30,40,100 and 1-3 bases (answers compared with the model and with each other); subsets of '
+                   'the 4x4 grid (thorough: all 14892 subsets of <= 6 points; quick: all of <= 3 points and 450 random ones of 4..6) in degree, '
+                   'metre and centimetre frames, each in ALL its orders, every order compared with the canonical one (which Coq compares with '
+                   'the model); exactness of the float computation checked per case with Fractions (skipped_inexact counts the cases dropped); '
+                   'non-trivial = at least 3 distinct points and (a repeated input point, or two points sharing a longitude, or an input point on '
+                   'a hull edge); distinct (input tuple, scale) counted',
+              assumptions=['coordinates are base + k*2^-s with small integers k (no Z value): representable, differences and cross products exact in '
+                           'doubles (checked per case with fractions.Fraction), Coordinate does not wrap, ensure_edge_bounds is the identity',
+                           'the model over Z is evaluated on k: the algorithm only tests signs of cross products of coordinate differences, which '
+                           'are invariant under translation and uniform positive scaling',
                            'sorted(set(...)) is modelled as the unique strictly increasing list of the distinct inputs'])
 
 
@@ -532,23 +678,24 @@ def replay(path):
     if pts is None:
         print(json.dumps(r, indent=1)); return
     pts = [tuple(p) for p in pts]
-    set_scale((r.get('shrunk') or {}).get('scale') or m.get('scale') or 1)
+    set_frame((r.get('shrunk') or {}).get('frame') or m.get('frame') or IDENT)
     out = guarded(lambda: impl_hull(pts))
-    print(f'input (grid step 1/{SCALE} degree):', pts)
+    print(f'configuration (grid units): {pts}; frame base=({FRAME[0]}, {FRAME[1]}) step=2^-{FRAME[2]} degrees')
+    print('coordinates fed to the library:', [tuple(float(v) for v in val(p)) for p in pts])
     print('_geometry.convex_hull now:', out)
     print('reference (mirror of the Coq model):', ref_hull(pts))
     if out[0] == 'Ok':
-        print('property clauses violated now:', oracle(pts, out[1]))
+        print('property clauses violated now:', oracle_here(pts, out[1]))
     lits = [f'KHull {ptslit(pts)} {ptslit(out[1]) if out[0] == "Ok" else "[]"}']
     evals = [f'hull {ptslit(pts)}']
     if m.get('k') == 'entry':
-        set_scale(m.get('scale') or 1)
+        set_frame(m.get('frame') or IDENT)
         ms = [[tuple(p) for p in x] for x in m['members']]
         eo = guarded(lambda: [of_coord(c) for c in rebuild_entry(m['entry'], ms).outline])
         flat = [p for x in ms for p in x]
         print(f'entry point {m["entry"]} on members {ms} now:', eo)
         if eo[0] == 'Ok':
-            print('property clauses violated now:', oracle(flat, eo[1]))
+            print('property clauses violated now:', oracle_here(flat, eo[1]))
         lits.append(f'KEntry {listlit([ptslit(x) for x in ms])} {reslit(eo, ptslit)}')
         evals.append(f'hull_of_members {listlit([ptslit(x) for x in ms])}')
     ck = Check('C10', argv=[])
